@@ -3,6 +3,8 @@ import NibabelModel.Generated.C02Types
 import NibabelModel.Lemmas.C02_Ideal
 import NibabelModel.Lemmas.C02_Misc
 import NibabelModel.Lemmas.C02_Tfm
+import NibabelModel.Lemmas.C02_E2E
+import NibabelModel.Lemmas.C02_More
 import NibabelModel.Generated.C02Caps
 /-! Props/C02 — rescaled integer storage: bounded error, no wrap-around, or a loud refusal.
 
@@ -374,5 +376,179 @@ example : awScalingNeeded (.flt 24) ⟨-32768, 32767⟩ [.fin 0, .fin 70000] = t
 theorem make_writer_of_caps (c : Cls) : makeWriter c.caps = .ok c.writer := makeWriter_caps c
 
 example : makeWriter ⟨false, true⟩ = .error .value := by decide
+
+/-! ## end to end: the whole `save`, not a stand-alone element
+
+The `error_bound*` theorems above speak about one element pushed through `scaleFin` with free `(s, b)`.  The theorems
+below start from `save c rnd … = .ok (s, b, raws)` — the executable model of `img.to_file_map()` that the correspondence
+streams compare with nibabel — and conclude about every element of `raws` against the element of `data` at the same
+position (`List.Forall₂`). -/
+
+/-- WHAT `save` STORES (NIfTI, SPM; float data whose finite range is not {0}): the stored slope is non-zero and every
+    finite element `r` is stored as `clip(rint((r − b)/s), both_mn, both_mx)`. -/
+theorem save_float_element (c : Cls) (hc : c = .nifti ∨ c = .spm) (rnd : Rat → Rat) (p32 prec : Nat) (o : OutT)
+    (data : List Val) (s b : Rat) (raws : List Int) (mn mx : Rat) (hn : Bool) (ho1 : o.omin ≤ 0) (ho2 : 0 ≤ o.omax)
+    (hsave : save c rnd p32 (.flt prec) o data = .ok (s, b, raws))
+    (hfr : finiteRange data = (some (mn, mx), hn)) (hnz : ¬ (mn = 0 ∧ mx = 0)) :
+    s ≠ 0 ∧ List.Forall₂ (fun v q => ∀ r, v = Val.fin r →
+      q = clipI (rint ((r - b) / s)) (sharedRange (workingPrec (.flt prec)) o).1
+            (sharedRange (workingPrec (.flt prec)) o).2) data raws :=
+  save_flt_elem hc ho1 ho2 hsave hfr hnz
+
+example : save .nifti id 24 (.flt 53) ⟨0, 255⟩ [.fin 10, .fin 520, .fin 15, .pinf]
+    = .ok (2, 10, [0, 255, 2, 255]) := by decide +kernel
+
+/-- END-TO-END ERROR BOUND, NIfTI (slope + intercept), float data, WITH OR WITHOUT NaN.  If the save succeeds having
+    stored `(s, b)`, and `(ss, bs)` is what the same writer computes without rounding (`rnd = id`; with NaNs present the
+    range is extended to 0 and the nan2zero re-fit is active), then every finite element reloads within
+
+        |s|/2 + |b − bs| + |s − ss|·max(|sh.1|, |sh.2|),      sh = shared_range(float32, out).
+
+    (`hsub*`: the shared range of the working float contains that of float32 — true for every real type pair, see the
+    example; `hne`: the scaled range is not a single point — constant arrays are `error_bound_const`.) -/
+theorem save_error_bound_nifti (rnd : Rat → Rat) (p32 prec : Nat) (o : OutT) (data : List Val) (s b ss bs : Rat)
+    (raws : List Int) (mn mx : Rat) (hn : Bool) (ho1 : o.omin ≤ 0) (ho2 : 0 ≤ o.omax)
+    (hsh : (sharedRange p32 o).1 < (sharedRange p32 o).2)
+    (hsub1 : (sharedRange (workingPrec (.flt prec)) o).1 ≤ (sharedRange p32 o).1)
+    (hsub2 : (sharedRange p32 o).2 ≤ (sharedRange (workingPrec (.flt prec)) o).2)
+    (hsave : save .nifti rnd p32 (.flt prec) o data = .ok (s, b, raws))
+    (hfr : finiteRange data = (some (mn, mx), hn))
+    (hne : (if hn then min mn 0 else mn) < (if hn then max mx 0 else mx))
+    (hideal : writerScale .slopeInter id p32 (.flt prec) o data = .ok (ss, bs)) :
+    List.Forall₂ (fun v q => ∀ r, v = Val.fin r →
+      rabs (applyReadScaling s b q - r) ≤ rabs s / 2 + rabs (b - bs)
+        + rabs (s - ss) * max (rabs (sharedRange p32 o).1) (rabs (sharedRange p32 o).2)) data raws := by
+  simp only [rabs_eq_abs]
+  exact save_err_nifti ho1 ho2 hsh hsub1 hsub2 hsave hfr hne hideal
+
+example : save .nifti id 24 (.flt 53) ⟨-32768, 32767⟩ [.fin 10, .nan, .fin 131070]
+      = .ok (2, 65536, [-32763, -32768, 32767]) ∧
+    writerScale .slopeInter id 24 (.flt 53) ⟨-32768, 32767⟩ [.fin 10, .nan, .fin 131070] = .ok (2, 65536) ∧
+    finiteRange [.fin 10, .nan, .fin 131070] = (some (10, 131070), true) ∧
+    (sharedRange 24 ⟨-32768, 32767⟩).1 < (sharedRange 24 ⟨-32768, 32767⟩).2 ∧
+    (sharedRange 53 ⟨-2147483648, 2147483647⟩).1 ≤ (sharedRange 24 ⟨-2147483648, 2147483647⟩).1 ∧
+    (sharedRange 24 ⟨-2147483648, 2147483647⟩).2 ≤ (sharedRange 53 ⟨-2147483648, 2147483647⟩).2 := by
+  decide +kernel
+
+/-- END-TO-END ERROR BOUND, SPM (slope only), float data: the ideal intercept is 0, and every finite element reloads
+    within `|s|/2 + |b − 0| + |s − ss|·max(|omin|, |omax|) + |s|·max(omax − both_mx, both_mn − omin)`. -/
+theorem save_error_bound_spm (rnd : Rat → Rat) (p32 prec : Nat) (o : OutT) (data : List Val) (s b ss bs : Rat)
+    (raws : List Int) (mn mx : Rat) (hn : Bool) (ho1 : o.omin ≤ 0) (ho2 : 0 < o.omax)
+    (hsave : save .spm rnd p32 (.flt prec) o data = .ok (s, b, raws))
+    (hfr : finiteRange data = (some (mn, mx), hn)) (hnz : ¬ (mn = 0 ∧ mx = 0))
+    (hideal : writerScale .slope id p32 (.flt prec) o data = .ok (ss, bs)) :
+    bs = 0 ∧
+    List.Forall₂ (fun v q => ∀ r, v = Val.fin r →
+      rabs (applyReadScaling s b q - r) ≤ rabs s / 2 + rabs (b - bs)
+        + rabs (s - ss) * max (rabs o.omin) (rabs o.omax)
+        + rabs s * ((max (o.omax - (sharedRange (workingPrec (.flt prec)) o).2)
+                      ((sharedRange (workingPrec (.flt prec)) o).1 - o.omin) : Int) : Rat)) data raws := by
+  simp only [rabs_eq_abs]
+  exact save_err_spm ho1 ho2 hsave hfr hnz hideal
+
+example : save .spm id 24 (.flt 24) ⟨-32768, 32767⟩ [.fin (-65536), .fin 100, .fin 3]
+      = .ok (2, 0, [-32768, 50, 2]) ∧
+    writerScale .slope id 24 (.flt 24) ⟨-32768, 32767⟩ [.fin (-65536), .fin 100, .fin 3] = .ok (2, 0) := by
+  decide +kernel
+
+/-- CONSTANT ARRAYS (the 16777219 defect's configuration): a constant float array `c ≠ 0` without NaN is written by the
+    slope + intercept writer with slope 1 and intercept `rnd c`; every element is stored as `clip(rint(c − rnd c))`; when
+    that is not clipped the reload error is at most `|rnd c − c|` (the float32 rounding of the intercept) and at most
+    1/2.  (With NaN present the range is extended to 0 and `save_error_bound_nifti` applies.) -/
+theorem error_bound_const (rnd : Rat → Rat) (p32 prec : Nat) (o : OutT) (data : List Val) (s b c : Rat)
+    (raws : List Int) (ho1 : o.omin ≤ 0) (ho2 : 0 ≤ o.omax)
+    (hsave : save .nifti rnd p32 (.flt prec) o data = .ok (s, b, raws))
+    (hfr : finiteRange data = (some (c, c), false)) (hc : c ≠ 0) :
+    s = 1 ∧ b = rnd c ∧
+    List.Forall₂ (fun v q => ∀ r, v = Val.fin r → r = c ∧
+      q = clipI (rint (c - rnd c)) (sharedRange (workingPrec (.flt prec)) o).1
+            (sharedRange (workingPrec (.flt prec)) o).2 ∧
+      ((sharedRange (workingPrec (.flt prec)) o).1 ≤ rint (c - rnd c) →
+       rint (c - rnd c) ≤ (sharedRange (workingPrec (.flt prec)) o).2 →
+        rabs (applyReadScaling s b q - c) ≤ rabs (rnd c - c) ∧ rabs (applyReadScaling s b q - c) ≤ 1/2)) data raws := by
+  simp only [rabs_eq_abs]
+  exact save_const_nifti ho1 ho2 hsave hfr hc
+
+example : save .nifti (fun _ => 16777220) 24 (.flt 53) ⟨0, 255⟩ [.fin 16777219, .fin 16777219]
+    = .ok (1, 16777220, [0, 0]) ∧ finiteRange [.fin 16777219, .fin 16777219] = (some (16777219, 16777219), false) := by
+  decide +kernel
+
+/-- without rounding the nan2zero intercept re-fit is a no-op (the ideal NaN fill is exactly an end of the shared
+    range), so the ideal `(ss, bs)` is the same with and without NaN handling -/
+theorem nan_fit_ideal_noop (o : OutT) (sh : Int × Int) (a c : Rat) (hsh : sh.1 < sh.2) (h1 : o.omin ≤ sh.1)
+    (h2 : sh.2 ≤ o.omax) (hne : a < c) :
+    rangeScaleInter id o sh true a c = rangeScaleInter id o sh false a c :=
+  rangeScaleInter_id_nanFit hsh h1 h2 hne
+
+example : (rangeScaleInter id ⟨0, 255⟩ (0, 255) true 0 510).toOption = some (2, 0) ∧
+    (rangeScaleInter id ⟨-128, 127⟩ (-128, 127) true (-510) 0).toOption = some (2, -254) := by decide +kernel
+
+/-- STAYS IN RANGE, sharp, no ideal `(ss, bs)` and no gap term: whenever the clip range meets the interval spanned by
+    the two scaled thresholds, every finite `v ∈ [mn, mx]` reloads inside `[mn − |s|/2, mx + |s|/2]` — for either sign
+    of the stored slope and ANY stored intercept. -/
+theorem stays_in_range_sharp (s b mn mx v : Rat) (bmn bmx : Int) (hs : s ≠ 0) (hb : bmn ≤ bmx) (h1 : mn ≤ v)
+    (h2 : v ≤ mx) (ha : min (rint ((mn - b) / s)) (rint ((mx - b) / s)) ≤ bmx)
+    (hc : bmn ≤ max (rint ((mn - b) / s)) (rint ((mx - b) / s))) :
+    mn - rabs s / 2 ≤ applyReadScaling s b (scaleFin s b mn mx bmn bmx v) ∧
+    applyReadScaling s b (scaleFin s b mn mx bmn bmx v) ≤ mx + rabs s / 2 := by
+  simp only [rabs_eq_abs]
+  exact stays_sharp hs hb h1 h2 ha hc
+
+example : min (rint (((-510 : Rat) - 0) / (-2))) (rint (((0 : Rat) - 0) / (-2))) ≤ (255 : Int) ∧
+    (0 : Int) ≤ max (rint (((-510 : Rat) - 0) / (-2))) (rint (((0 : Rat) - 0) / (-2))) := by decide +kernel
+
+/-- THE HEADER ACCEPTED WHAT WAS STORED: a successful save of NIfTI / SPM / Analyze stored exactly what its writer
+    computed, and the class's `set_slope_inter` accepted it; for plain Analyze this forces slope 1, intercept 0 and
+    "no scaling needed" — i.e. whenever scaling IS needed, Analyze cannot have written anything. -/
+theorem save_header_accepts (c : Cls) (hc : c ≠ .mgh) (rnd : Rat → Rat) (p32 : Nat) (i : InT) (o : OutT)
+    (data : List Val) (s b : Rat) (raws : List Int) (h : save c rnd p32 i o data = .ok (s, b, raws)) :
+    writerScale c.writer rnd p32 i o data = .ok (s, b) ∧ setSlopeInter c s b = .ok () ∧
+    (c = .analyze → s = 1 ∧ b = 0 ∧ awScalingNeeded i o data = false) ∧
+    (c = .spm → s ≠ 0 ∧ b = 0) := by
+  obtain ⟨h1, h2⟩ := save_scale hc h
+  refine ⟨h1, h2, fun e => ?_, fun e => ?_⟩
+  · subst e; exact save_analyze_ok h
+  · subst e; exact setSlopeInter_spm.mp h2
+
+example : save .analyze id 24 (.int (-128) 127) ⟨0, 255⟩ [.fin 3, .fin 100] = .ok (1, 0, [3, 100]) := by
+  decide +kernel
+
+/-- NaN FILL, every accepted branch of the range test (`nan_inf` covers only the in-range one): the stored fill reloads
+    within `|s|·(1/2 + estErr)` of zero, `estErr = rint(2·2^(1−p)·|b/s|)` being exactly the slack the test grants, and
+    within `|s|/2` when the fill was inside the shared range. -/
+theorem nan_fill_bound (p : Nat) (s b : Rat) (bmn bmx f : Int) (hs : s ≠ 0) (hb : bmn ≤ bmx)
+    (h : nanFillCheck p s b (rint ((0 - b) / s)) bmn bmx = .ok f) :
+    rabs (applyReadScaling s b f - 0) ≤ rabs s * (1/2 + (rint (2 * (2 : Rat) ^ (1 - (p : Int)) * rabs (b / s)) : Rat)) ∧
+    (bmn ≤ rint ((0 - b) / s) ∧ rint ((0 - b) / s) ≤ bmx → rabs (applyReadScaling s b f - 0) ≤ rabs s / 2) := by
+  have := nanFill_bound hs hb h
+  simpa only [rabs_eq_abs] using this
+
+example : nanFillCheck 24 1 (-(2 ^ 31)) (rint ((0 - (-(2 ^ 31) : Rat)) / 1)) (-2147483648) 2147483520 = .ok 2147483520 := by
+  decide +kernel
+
+/-- IU2IU EXACT without the `conv` decoration: for integer data (every value an exact rational) the intercept-only
+    branch and the sign-flip branch reload every `v ∈ [mn, mx]` exactly. -/
+theorem iu2iu_exact_int (w : Writer) (rnd : Rat → Rat) (p32 : Nat) (o : OutT) (sh bm : Int × Int) (mn mx : Int)
+    (hmm : mn ≤ mx) (hbm1 : bm.1 ≤ sh.1) (hsh0 : sh.1 ≤ 0) (hbm2 : sh.2 ≤ bm.2) :
+    (mx - mn ≤ sh.2 - sh.1 → (sh.1 = 0 ∨ sh.2 ≤ -sh.1) →
+      let inter := if sh.1 = 0 then floorExact p32 (mn - sh.1) else floorExact p32 (mn + (mx - mn + 1) / 2)
+      mx - inter ≤ sh.2 →
+        iu2iuInter rnd p32 o sh mn mx = .ok (1, (inter : Rat)) ∧
+        ∀ v : Int, mn ≤ v → v ≤ mx →
+          applyReadScaling 1 inter (scaleFin 1 inter mn mx bm.1 bm.2 (v : Rat)) = v) ∧
+    (o.isU = true → mx ≤ 0 → (mn.natAbs : Int) ≤ sh.2 →
+        iu2iuSlope w rnd o sh mn mx = .ok (-1, 0) ∧
+        ∀ v : Int, mn ≤ v → v ≤ mx →
+          applyReadScaling (-1) 0 (scaleFin (-1) 0 mn mx bm.1 bm.2 (v : Rat)) = v) := by
+  have h := iu2iu_exact w rnd p32 o sh bm mn mx (fun v => (v : Rat)) hmm hbm1 hsh0 hbm2
+  constructor
+  · intro a b inter c
+    obtain ⟨e1, e2⟩ := h.1 a b c
+    exact ⟨e1, fun v h1 h2 => e2 v h1 h2 rfl⟩
+  · intro a b c
+    obtain ⟨e1, e2⟩ := h.2 a b c
+    exact ⟨e1, fun v h1 h2 => e2 v h1 h2 rfl⟩
+
+example : iu2iuInter id 24 ⟨-32768, 32767⟩ (-32768, 32767) 100000 160000 = .ok (1, 130000) := by decide +kernel
 
 end Nb.C02
